@@ -836,3 +836,154 @@ func c05IndexExact(c *Ctx) map[string]bool {
 	}
 	return decided
 }
+
+// c02SplitExact decides splitAddrPort exactly for every text of 0..9 bytes: the
+// function is evaluated path by path; every path returns windows of the input,
+// and for every path, under its condition, the three results must be what
+// netip's splitter gives: the text is cut at the last ':'; host and port are
+// non-empty; a host containing ':' must be bracketed and loses the brackets, any
+// other host is returned as it is.
+func c02SplitExact(c *Ctx) bool {
+	const rule = "C02.port.split-exact"
+	f := c.fn("netutil", "splitAddrPort")
+	if f == nil || len(f.Params) != 1 {
+		return false
+	}
+	lengths := []int{0, 1, 2, 3, 4, 5, 6, 7, 8, 9}
+	bads := make([]string, len(lengths))
+	errs := make([]error, len(lengths))
+	parallelDo(len(lengths), func(k int) {
+		L := lengths[k]
+		m := boolfn.New()
+		ev := &boolfn.Eval{M: m, Entered: map[string]bool{}, ErrorsAsBits: true, ForcePath: true, Steps: 1000000}
+		ev.InScope = core.InModule
+		in := ev.StringInput(0, L)
+		rs, err := ev.Call(f, []boolfn.Val{in})
+		if err != nil {
+			errs[k] = err
+			return
+		}
+		var alts []boolfn.ChoiceAlt
+		switch {
+		case len(rs) == 1 && rs[0].Kind == boolfn.KChoice:
+			alts = rs[0].Alts
+		case len(rs) == 3:
+			alts = []boolfn.ChoiceAlt{{Cond: 1, Val: boolfn.Val{Kind: boolfn.KTuple, Tuple: rs}}}
+		default:
+			errs[k] = fmt.Errorf("unexpected result shape")
+			return
+		}
+		is := func(i int, v byte) int {
+			eq := 1
+			for b := 0; b < 8; b++ {
+				bit := in.Elems[i][b]
+				if (v>>uint(b))&1 == 0 {
+					bit = m.Not(bit)
+				}
+				eq = m.And(eq, bit)
+			}
+			return eq
+		}
+		last := make([]int, L) // the last ':' is at i
+		cc := make([]int, L)   // a ':' in front of i
+		after := 1
+		for i := L - 1; i >= 0; i-- {
+			last[i] = m.And(is(i, ':'), after)
+			after = m.And(after, m.Not(is(i, ':')))
+		}
+		before := 0
+		for i := 0; i < L; i++ {
+			cc[i] = before
+			before = m.Or(before, is(i, ':'))
+		}
+		specOK := 0
+		for i := 1; i < L-1; i++ {
+			br := 0
+			if i >= 2 {
+				br = m.And(is(0, '['), is(i-1, ']'))
+			}
+			specOK = m.Or(specOK, m.And(last[i], m.Or(m.Not(cc[i]), br)))
+		}
+		win := func(v boolfn.Val) (lo, hi int, ok bool) {
+			switch v.Kind {
+			case boolfn.KStr:
+				if v.Str == "" {
+					return 0, 0, true
+				}
+			case boolfn.KSlice:
+				if len(v.Elems) == L || v.Hi == v.Lo {
+					return v.Lo, v.Hi, true
+				}
+			}
+			return 0, 0, false
+		}
+		cover := 0
+		for _, a := range alts {
+			cover = m.Or(cover, a.Cond)
+			t := a.Val
+			if t.Kind != boolfn.KTuple || len(t.Tuple) != 3 || t.Tuple[2].Kind != boolfn.KBits {
+				errs[k] = fmt.Errorf("unexpected result shape")
+				return
+			}
+			okBit := t.Tuple[2].Bits[0]
+			if d := m.And(a.Cond, m.Xor(okBit, specOK)); d != 0 {
+				kind := "split although netip's splitter refuses it"
+				if m.And(d, specOK) != 0 {
+					d, kind = m.And(d, specOK), "refused although it is host:port (or [host]:port)"
+				}
+				bads[k] = sprintf("the text %s is %s", witnessName(m.Witness(d), L, L), kind)
+				return
+			}
+			good := m.And(a.Cond, okBit)
+			if good == 0 {
+				continue
+			}
+			ilo, ihi, ok1 := win(t.Tuple[0])
+			plo, phi, ok2 := win(t.Tuple[1])
+			if !ok1 || !ok2 {
+				errs[k] = fmt.Errorf("a result is not a window of the input")
+				return
+			}
+			for i := 1; i < L-1; i++ {
+				ci := m.And(good, last[i])
+				if ci == 0 {
+					continue
+				}
+				if phi-plo != L-i-1 || plo != i+1 {
+					bads[k] = sprintf("for the text %s the port is not what follows the last ':'", witnessName(m.Witness(ci), L, L))
+					return
+				}
+				if plain := m.And(ci, m.Not(cc[i])); plain != 0 && (ilo != 0 || ihi != i) {
+					bads[k] = sprintf("for the text %s the host is not the text in front of the last ':' as it is", witnessName(m.Witness(plain), L, L))
+					return
+				}
+				if br := m.And(ci, cc[i]); br != 0 && !(ihi-ilo == i-2 && (ihi == ilo || ilo == 1)) {
+					bads[k] = sprintf("for the text %s the host is not the bracketed text without its brackets", witnessName(m.Witness(br), L, L))
+					return
+				}
+			}
+		}
+		if cover != 1 {
+			bads[k] = "the paths of the function do not cover every input"
+		}
+	})
+	for k, e := range errs {
+		if e != nil {
+			if os.Getenv("GSA_DBG") != "" {
+				fmt.Fprintln(os.Stderr, "exact splitAddrPort: L =", lengths[k], e)
+			}
+			c.L.Notef("splitAddrPort is outside the exact evaluator's grammar at length %d (%v)", lengths[k], e)
+			return false
+		}
+	}
+	c.L.Floor(rule, 1)
+	what := "splitAddrPort == netip's splitter plus the bracket rule"
+	for _, b := range bads {
+		if b != "" {
+			c.check(false, rule, f, what, nil, b)
+			return true
+		}
+	}
+	c.check(true, rule, f, what, nil, sprintf("ok and both windows equal the definition on every path, for every text of %v bytes", lengths))
+	return true
+}
